@@ -298,8 +298,8 @@ def write_main(path, pkgs):
 
 def build_harness(pkg, timeout=3000):
     """Build the harness from /repo's working tree with -tags verif.
-    Tries the combined binary first; falls back to a single-property binary so that a
-    property whose own harness no longer compiles cannot break the others."""
+    One binary per property (bin/h_<pkg>), so that a property whose own harness no longer
+    compiles against a changed tree cannot break the other properties' checks."""
     os.makedirs(BIN, exist_ok=True)
     shutil.copyfile(os.path.join(REPO, "go", "go.sum"), os.path.join(HARNESS, "go.sum"))
     # the replace directive always points at the tree under check
@@ -309,13 +309,6 @@ def build_harness(pkg, timeout=3000):
     if new != txt:
         open(gm, "w").write(new)
     logs = ""
-    if os.environ.get("VERIF_SINGLE_HARNESS") != "1":
-        write_main(os.path.join(HARNESS, "cmd", "h", "main.go"), harness_pkgs())
-        out = os.path.join(BIN, "h")
-        rc, o, e = sh(["go", "build", "-tags", "verif", "-o", out, "./cmd/h"], cwd=HARNESS, env=goenv(), timeout=timeout)
-        if rc == 0:
-            return out, o + e
-        logs += "combined harness build failed:\n" + o + e + "\n"
     write_main(os.path.join(HARNESS, "cmd", "h_" + pkg, "main.go"), [pkg])
     out = os.path.join(BIN, "h_" + pkg)
     rc, o, e = sh(["go", "build", "-tags", "verif", "-o", out, "./cmd/h_" + pkg], cwd=HARNESS, env=goenv(), timeout=timeout)
@@ -511,8 +504,8 @@ def run_generic(ctx):
             obligations_ok = False
             broken.append("gate: forbidden vernacular: " + "; ".join(g[:5]))
         n_obl = count_obligations(coq_cone(prop_v))
-        ctx.log("harness build")
-        binary, hlog = build_harness(p.HARNESS_PKG)
+    ctx.log("harness build")
+    binary, hlog = build_harness(p.HARNESS_PKG)
     # Print Assumptions of the property theorems
     assumptions_txt = ""
     if ok_prop:
